@@ -75,7 +75,16 @@ def replay_rule(rep):
     env = fresh_env()
     fname = rep["function"].rsplit(".", 1)[1]
     out = {"mode": "witness"}
+    w = rep.get("witness") or {}
+    if "op" not in w:
+        # no usable counter-model (z3's model evaluation failed): operator from the variant name
+        import re
+        m = re.search(r"\[([A-Z_0-9]+)/", rep.get("variant") or rep.get("obligation") or "")
+        w = {"op": m.group(1) if m else None}
+        rep["witness"] = w
     try:
+        if "formula" not in w:
+            raise ValueError("no counter-model available")
         formula, args = rule_inputs_from_witness(env, rep["witness"])
         out["formula"] = str(formula)
         out["args"] = [str(a) for a in args]
